@@ -256,13 +256,6 @@ impl<S: ShortGroupSignatureScheme> Issuer<S> {
             self.revocation_registry.value,
             &self.revocation_key,
         );
-        self.revocation_registry
-            .active
-            .insert(revocation_claim.value.clone());
-        self.revocation_registry
-            .elements
-            .insert(revocation_claim.value.clone());
-
         let signature = S::blind_sign(
             &request.blind_signature_context,
             &self.signing_key,
@@ -270,6 +263,13 @@ impl<S: ShortGroupSignatureScheme> Issuer<S> {
             request.nonce,
         )
         .map_err(|_| Error::InvalidSigningOperation)?;
+        // record the identifier only once the request has been accepted
+        self.revocation_registry
+            .active
+            .insert(revocation_claim.value.clone());
+        self.revocation_registry
+            .elements
+            .insert(revocation_claim.value.clone());
         let blind_credential_bundle = BlindCredentialBundle {
             issuer: IssuerPublic::from(self),
             credential: BlindCredential {
